@@ -6,7 +6,7 @@ CONSTANTS
   Cfgs <- CfgPlainJson
   MaxEmit = 1
   MaxSreq = 0
-  MaxSa = 1
+  MaxSa = 0
   Gates = FALSE
 VIEW MCView
 CHECK_DEADLOCK FALSE
